@@ -1,8 +1,5 @@
 HOOK_COMMITS = []
 NOT_APPLICABLE = {
-    'C02': 'not yet wired (in progress this session)',
-    'C03': 'not yet wired (in progress this session)',
-    'C04': 'not yet wired (in progress this session)',
     'C05': 'not yet wired (in progress this session)',
     'C06': 'not yet wired (in progress this session)',
     'C07': 'not yet wired (in progress this session)',
@@ -13,8 +10,6 @@ NOT_APPLICABLE = {
     'C12': 'not yet wired (in progress this session)',
     'C13': 'not yet wired (in progress this session)',
     'C14': 'quantifies over crash points inside std::fs / csv::Writer streaming; a function contract relates pre- and post-state of a completed call only, so no contract within reach expresses it',
-    'C15': 'not yet wired (in progress this session)',
-    'C16': 'not yet wired (in progress this session)',
     'C17': 'not yet wired (in progress this session)',
     'C18': 'not yet wired (in progress this session)',
     'C19': 'not yet wired (in progress this session)',
